@@ -123,6 +123,10 @@ def gen_source(rng, good, bad, pbad=0.12):
     kind = rng.choice(["map", "map", "pairs", "fd", None])
     if kind is None:
         return None
+    if kind == "map" and rng.random() < 0.45:
+        # mappings that are not dict subclasses (or are dict subclasses with their own machinery): the operators
+        # dispatch differently on them (reflected methods, NotImplemented fall-backs)
+        kind = rng.choice(["map:proxy", "map:userdict", "map:chainmap", "map:ordered", "map:defaultdict"])
     if kind == "fd":
         return ("fd", gen_pairs(rng, good, [], False))
     return (kind, gen_pairs(rng, good, bad, kind == "pairs", pbad=pbad))
@@ -223,12 +227,40 @@ def hist_from_json(j):
 
 
 # ---- running a history on the implementation ----------------------------------------------------------------
+class _KeysOnlyMapping(object):
+    """The minimal protocol dict.update accepts as a mapping: keys() and __getitem__ (no __iter__/__ror__)."""
+    def __init__(self, m):
+        self._m = m
+
+    def keys(self):
+        return list(self._m.keys())
+
+    def __getitem__(self, k):
+        return self._m[k]
+
+
 def build_source(cls, s):
     if s is None:
         return None
     kind, ps = s
     if kind == "map":
         return dict(ps)
+    if kind.startswith("map:"):
+        import types, collections
+        m = dict(ps)
+        if kind == "map:proxy":
+            return types.MappingProxyType(m)
+        if kind == "map:userdict":
+            return collections.UserDict(m)
+        if kind == "map:chainmap":
+            return collections.ChainMap(m)
+        if kind == "map:ordered":
+            return collections.OrderedDict(ps)
+        if kind == "map:defaultdict":
+            dd = collections.defaultdict(int)
+            dd.update(m)
+            return dd
+        return _KeysOnlyMapping(m)
     if kind == "fd":
         return cls(dict(ps))
     return list(ps)
